@@ -167,6 +167,8 @@ def extra_instances():
              Token([_imp("$"), "N"])], name="implicit-connector-dollar"))
     # hydrogens written explicitly as the FIRST atom of a token with further atoms (formyl, N-H): folded into their heavy atom like any other
     add(M("[H]C(=O)O[$]", S("[$]", ["[$]CC[$]"], ["[H]N(C)[$]"], "[$]", g(60)), "[$]N([H])C", name="leading-explicit-H"))
+    # ... and with the descriptors on inner atoms (a hydrogen folded away in front shifts no atom index)
+    add(M("[H]C([>])(C)CC", S("[>]", ["[H]C([<])([>])CC"], [], "[<]", g(70)), "[<]O", name="leading-explicit-H-descriptor-inside"))
     # weights that differ but are all tiny (and a zero next to a tiny one): still picked in proportion, never "about equal"
     add(M("C[>]", S("[>]", ["[<|1e-9|]CC[>]", "[<|3e-9|]C(F)C[>]"], [], "[<]", g(60)), "[<]O", name="tiny-unequal-weights"))
     add(M("C[>]", S("[>]", ["[<|0|]CC[>]", "[<|1e-9|]C(F)C[>]"], [], "[<]", g(60)), "[<]O", name="zero-next-to-tiny-weight"))
